@@ -101,6 +101,13 @@ def install(h: Hooks):
         finally:
             h.active = was
 
+    real_symlink = os.symlink
+
+    def symlink(a, b, *args, **kw):
+        h.event("link", src=str(a), dst=str(b), symbolic=True)
+        return real_symlink(a, b, *args, **kw)
+
+    os.symlink = symlink
     os.rename, os.link, os.remove, os.unlink = rename, link, remove, unlink
     shutil.copy, shutil.move = copy, move
 
